@@ -592,9 +592,10 @@ impl<'a> TupleReader<'a> {
     ) -> TupleResult<Option<TupleLayout>> {
         let mut layout = self.parse_last_version(data)?;
 
-        // Check if tuple was deleted before our snapshot
+        // Check if tuple was deleted before our snapshot, or by the reading transaction itself
+        // (older versions of a row the reader deleted are not visible to it either)
         if let Some(xmax) = layout.version_xmax {
-            if snapshot.is_committed_before_snapshot(xmax) {
+            if snapshot.is_committed_before_snapshot(xmax) || snapshot.xid() == xmax {
                 return Ok(None);
             }
         }
